@@ -173,6 +173,16 @@ def coq_props(pid):
     res["obligations"], res["bad"] = coq_audit(deps)
     res["deps"] = deps
     res["ok"] = not res["bad"]
+    # thorough tier: re-check the compiled theorems and everything they depend on with the independent checker
+    if res["ok"] and os.environ.get("VERIF_TIER_EFFECTIVE") == "thorough":
+        with Lock("coq"):
+            rc, o, e = run(["timeout", "2400", "coqchk", "-silent", "-o", "-Q", ".", "Verif", "Verif." + name], cwd=COQ)
+        txt = o + e
+        m = re.search(r"\* Axioms:\s*(.*?)\n\s*\n", txt, re.S)
+        res["coqchk"] = {"exit": rc, "axioms": (m.group(1).strip() if m else "?"), "summary": txt[-600:]}
+        if rc != 0:
+            res["ok"] = False
+            res["output"] = "coqchk failed:\n" + txt[-4000:]
     return res
 
 
@@ -258,6 +268,9 @@ class Report:
         self.coverage["theorems"] = props["theorems"]
         self.coverage["print_assumptions"] = props["assumptions"] or ["Closed under the global context"]
         self.coverage["proof_files"] = props.get("deps", [])
+        if props.get("coqchk"):
+            self.coverage["coqchk"] = {"cmd": "coqchk -silent -o -Q . Verif Verif.Props_%s" % self.pid, "exit": props["coqchk"]["exit"],
+                                       "axioms": props["coqchk"]["axioms"]}
 
     def violation(self, replay, note=""):
         self.violations.append((replay, note))
